@@ -1,10 +1,15 @@
-(** Hand-written spec table for gen/FsGen.v: the source text the models in
-    coq/Fsx were transcribed from.  [fs_readdir_shape_ok] / [fs_qid_shape_ok]
-    hold while the tree still has exactly these expressions; an edit of one of
-    them breaks the obligation below (C19_source_shape / C20_source_shape) and
-    sends the check into its search for a concrete failing input. *)
-From Coq Require Import String List Bool.
-From P9V Require Import gen.FsGen.
+(** Obligations over gen/FsGen.v: what the models in coq/Fsx transcribe from the
+    source, compared SEMANTICALLY where go2coq can extract it (comparisons
+    normalised to (smaller, op, larger) with widening conversions and
+    parentheses removed; additive constants, shift amounts and mask widths as
+    numbers, proved equal to the constants the models use; structural facts as
+    booleans).  Text equality remains only for the statement sequences of
+    Mapper.QIDFor and localToQid and the stat/append tail of the localfs loop,
+    rendered by go/printer (insensitive to re-formatting).  An edit that breaks
+    one of these breaks C19_source_shape / C20_source_shape and sends the check
+    into its search for a concrete failing input. *)
+From Coq Require Import String List Bool NArith.
+From P9V Require Import gen.ConstGen gen.FsGen Fsx.Readdir Fsx.LocalDir Fsx.Qid.
 Import ListNotations.
 Open Scope string_scope.
 
@@ -14,68 +19,87 @@ Fixpoint strs_eqb (a b : list string) : bool :=
   | x :: a', y :: b' => String.eqb x y && strs_eqb a' b'
   | _, _ => false
   end.
+Definition cmp_eqb (a b : string * string * string) : bool :=
+  let '(a1, a2, a3) := a in let '(b1, b2, b3) := b in String.eqb a1 b1 && String.eqb a2 b2 && String.eqb a3 b3.
+Fixpoint terms_eqb (a b : list (string * N)) : bool :=
+  match a, b with
+  | [], [] => true
+  | (x, n) :: a', (y, m) :: b' => String.eqb x y && N.eqb n m && terms_eqb a' b'
+  | _, _ => false
+  end.
 
-Definition exp_readdir_guard : string := "offset >= uint64(len(names)) => { return nil, nil }".
-Definition exp_readdir_end : string := "int(min(offset+uint64(count), uint64(len(names))))".
-Definition exp_readdir_range : string := "i, name := range names[offset:end]".
-Definition exp_readdir_QID : string := "qids[name]".
-Definition exp_readdir_Type : string := "qids[name].Type".
-Definition exp_readdir_Offset : string := "offset + uint64(i) + 1".
-Definition exp_readdir_Name : string := "name".
-Definition exp_local_rewinds : bool := true.
-Definition exp_local_loop_cond : string := "len(p9Ents) < int(count)".
-Definition exp_local_loop_body : list string := [
-  "singleEnt, err := l.file.Readdirnames(1)";
-  "if err == io.EOF { return p9Ents, nil } else if err != nil";
-  "cursor++";
-  "if cursor <= offset { continue }";
-  "name := singleEnt[0]";
-  "localEnt := Local{path: path.Join(l.path, name)}";
-  "qid, _, err := localEnt.info()";
-  "if err != nil { return p9Ents, err }";
-  "p9Ents = append(p9Ents, p9.Dirent{ QID: qid, Type: qid.Type, Name: name, Offset: cursor, })"
-].
-Definition exp_local_QID : string := "qid".
-Definition exp_local_Type : string := "qid.Type".
-Definition exp_local_Offset : string := "cursor".
-Definition exp_local_Name : string := "name".
-Definition exp_rreaddir_break : string := "len(entriesBuf.data) > int(r.Count)".
-Definition exp_mapper_paths_guarded : bool := true.
-Definition exp_mapper_paths_users : list string := ["Mapper.QIDFor"].
-Definition exp_newpath_body : string := "{ return atomic.AddUint64(&g.uids, 1) }".
-Definition exp_qidfor_body : list string := ["m.mu.Lock()"; "defer m.mu.Unlock()"; "if path, ok := m.paths[q.Path]; ok"; "path := m.g.NewPath()"; "m.paths[q.Path] = path"; "return"].
-Definition exp_encodeLikely_body : list string := ["inoLikely := nOnes(inodeLikelyBits)"; "if (ino & ^inoLikely) != 0 { return 0, false }"; "upperUnlikely := nOnes(devUpperBits) << devUpperOffset"; "if (dev & upperUnlikely) != 0 { return 0, false }"; "major := uint64(unix.Major(dev))"; "if major > nOnes(devMajorLikelyBits) { return 0, false }"; "minor := uint64(unix.Minor(dev))"; "if minor > nOnes(devMinorLikelyBits) { return 0, false }"; "q := ino & inoLikely"; "q |= minor << (inodeLikelyBits)"; "q |= major << (inodeLikelyBits + devMinorLikelyBits)"; "return q, true"].
-Definition exp_nOnes_body : string := "{ return (uint64(1) << n) - 1 }".
-Definition exp_localToQid_body : list string := ["stat := fi.Sys().(*syscall.Stat_t)"; "if q, ok := encodeLikely(uint64(stat.Dev), stat.Ino); ok { return q, nil }"; "di := devino{uint64(stat.Dev), stat.Ino}"; "if q, ok := qids.Load(di); ok { return q.(uint64), nil }"; "q, _ := qids.LoadOrStore(di, nextQid.Add(1))"; "return q.(uint64), nil"].
-Definition exp_nextQid_init : string := "nextQid.Store(uint64(1) << 63)".
+(** the meaning of an extracted comparison operator *)
+Definition cmp_sem (op : string) : option (N -> N -> bool) :=
+  if String.eqb op "<" then Some N.ltb else if String.eqb op "<=" then Some N.leb
+  else if String.eqb op "==" then Some N.eqb else None.
 
+(** * C19 *)
 Definition fs_readdir_shape_ok : bool :=
-  String.eqb fs_readdir_guard exp_readdir_guard
-  && String.eqb fs_readdir_end exp_readdir_end
-  && String.eqb fs_readdir_range exp_readdir_range
-  && String.eqb fs_readdir_QID exp_readdir_QID
-  && String.eqb fs_readdir_Type exp_readdir_Type
-  && String.eqb fs_readdir_Offset exp_readdir_Offset
-  && String.eqb fs_readdir_Name exp_readdir_Name
-  && Bool.eqb fs_local_rewinds exp_local_rewinds
-  && String.eqb fs_local_loop_cond exp_local_loop_cond
-  && strs_eqb fs_local_loop_body exp_local_loop_body
-  && String.eqb fs_local_QID exp_local_QID
-  && String.eqb fs_local_Type exp_local_Type
-  && String.eqb fs_local_Offset exp_local_Offset
-  && String.eqb fs_local_Name exp_local_Name
-  && String.eqb fs_rreaddir_break exp_rreaddir_break.
-Definition fs_qid_shape_ok : bool :=
-  Bool.eqb fs_mapper_paths_guarded exp_mapper_paths_guarded
-  && strs_eqb fs_mapper_paths_users exp_mapper_paths_users
-  && String.eqb fs_newpath_body exp_newpath_body
-  && strs_eqb fs_qidfor_body exp_qidfor_body
-  && strs_eqb fs_encodeLikely_body exp_encodeLikely_body
-  && String.eqb fs_nOnes_body exp_nOnes_body
-  && strs_eqb fs_localToQid_body exp_localToQid_body
-  && String.eqb fs_nextQid_init exp_nextQid_init.
+  (* readdir.Readdir:  if len(names) <= offset { return nil, nil } *)
+  cmp_eqb fs_readdir_guard ("len(names)", "<=", "offset") && fs_readdir_guard_returns_empty
+  && String.eqb fs_readdir_end "min((offset + count), len(names))"
+  && String.eqb fs_readdir_range "names[offset:end]"
+  (* Offset = offset + <range index> + 1 *)
+  && strs_eqb fs_readdir_Offset_terms [fs_readdir_range_index; "offset"] && N.eqb fs_readdir_Offset_const 1
+  && String.eqb fs_readdir_QID ("qids[" ++ fs_readdir_range_value ++ "]")
+  && String.eqb fs_readdir_Type ("qids[" ++ fs_readdir_range_value ++ "].Type")
+  && String.eqb fs_readdir_Name fs_readdir_range_value
+  (* localfs: rewind, cursor from 0, loop while len < count, read 1 / EOF returns what was collected / cursor++ / skip / entry *)
+  && fs_local_rewinds && String.eqb fs_local_cursor_init "0"
+  && cmp_eqb fs_local_loop_cond ("len(p9Ents)", "<", "count")
+  && cmp_eqb fs_local_skip ("cursor", "<=", "offset")
+  && strs_eqb fs_local_loop_events ["read 1"; "eof-return p9Ents, nil"; "incr"; "skip"; "entry"]
+  && String.eqb fs_local_QID "qid" && String.eqb fs_local_Type "qid.Type" && String.eqb fs_local_Offset "cursor"
+  && String.eqb fs_local_Name "name"
+  && strs_eqb fs_local_loop_rest ["name := singleEnt[0]"; "localEnt := Local{path: path.Join(l.path, name)}";
+                                  "qid, _, err := localEnt.info()"; "if err != nil { return p9Ents, err }"]
+  (* rreaddir.encode: stop when Count < bytes so far *)
+  && cmp_eqb fs_rreaddir_break ("r.Count", "<", "len(entriesBuf.data)").
 
 Lemma readdir_shape_ok : fs_readdir_shape_ok = true.
 Proof. vm_compute. reflexivity. Qed.
+
+(** the models use exactly these operators and this increment *)
+Lemma model_offset_increment q s n r :
+  d_off (hd (mkDirent (mkQid 0 0 0) 0 0 "") (number_from q s (n :: r))) = (s + fs_readdir_Offset_const)%N.
+Proof. reflexivity. Qed.
+Lemma model_readdir_guard : cmp_sem (snd (fst fs_readdir_guard)) = Some N.leb.
+Proof. reflexivity. Qed.   (* static_readdir: [if lenN names <=? offset then []] *)
+Lemma model_local_skip : cmp_sem (snd (fst fs_local_skip)) = Some N.leb.
+Proof. reflexivity. Qed.   (* local_loop: [if cursor <=? offset then (skip)] *)
+Lemma model_local_loop_cond : cmp_sem (snd (fst fs_local_loop_cond)) = Some N.ltb.
+Proof. reflexivity. Qed.   (* local_loop: [if lenN acc <? count then (continue)] *)
+Lemma model_wire_break : cmp_sem (snd (fst fs_rreaddir_break)) = Some N.ltb.
+Proof. reflexivity. Qed.   (* wire_trunc: [if count <? acc + entry_size d then []] *)
+
+(** * C20 *)
+Definition fs_qid_shape_ok : bool :=
+  (* encodeLikely: widths and shift amounts are the constants the model uses *)
+  N.eqb fs_enc_ino_bits localfs_inodeLikelyBits
+  && N.eqb fs_enc_upper_bits localfs_devUpperBits && N.eqb fs_enc_upper_offset localfs_devUpperOffset
+  && String.eqb fs_enc_major_def "unix.Major(dev)" && String.eqb fs_enc_minor_def "unix.Minor(dev)"
+  && String.eqb fs_enc_q_init "(ino & inoLikely)"
+  && terms_eqb fs_enc_or_terms [("minor", localfs_inodeLikelyBits); ("major", (localfs_inodeLikelyBits + localfs_devMinorLikelyBits)%N)]
+  && strs_eqb fs_enc_shape
+       ["inoLikely"; "guard (ino & ^inoLikely) != 0"; "upperUnlikely"; "guard (dev & upperUnlikely) != 0";
+        "major"; "guard nOnes 12 < major"; "minor"; "guard nOnes 12 < minor"; "q"; "or"; "or"; "return q, true"]
+  && N.eqb 12 localfs_devMajorLikelyBits && N.eqb 12 localfs_devMinorLikelyBits
+  && String.eqb fs_nOnes "((1 << n) - 1)"
+  (* fallback table: keyed by the devino value built from the stat fields; counter from 2^63 in steps of 1 *)
+  && fs_fallback_key_is_value && String.eqb fs_fallback_key_fields "stat.Dev, stat.Ino"
+  && N.eqb fs_fallback_add_delta 1 && N.eqb fs_nextQid_init next0
+  && strs_eqb fs_localToQid_body
+       ["stat := fi.Sys().(*syscall.Stat_t)";
+        "if q, ok := encodeLikely(uint64(stat.Dev), stat.Ino); ok { return q, nil }";
+        "di := devino{uint64(stat.Dev), stat.Ino}";
+        "if q, ok := qids.Load(di); ok { return q.(uint64), nil }";
+        "q, _ := qids.LoadOrStore(di, nextQid.Add(1))";
+        "return q.(uint64), nil"]
+  (* qids: NewPath adds 1; paths only touched inside one Lock ... deferred Unlock section of QIDFor *)
+  && N.eqb fs_newpath_delta 1 && fs_mapper_paths_guarded && strs_eqb fs_mapper_paths_users ["Mapper.QIDFor"]
+  && strs_eqb fs_qidfor_body
+       ["m.mu.Lock()"; "defer m.mu.Unlock()"; "if path, ok := m.paths[q.Path]; ok"; "path := m.g.NewPath()";
+        "m.paths[q.Path] = path"; "return"].
+
 Lemma qid_shape_ok : fs_qid_shape_ok = true.
 Proof. vm_compute. reflexivity. Qed.
